@@ -112,6 +112,7 @@ def build(chk):
     c_drop(chk)
     c_modes(chk)
     c_interpolate(chk)
+    c_extend(chk)
     c_derivative(chk)
 
 
@@ -295,6 +296,84 @@ def c_interpolate(chk):
                            sym.to_sym(bool(len(d) == 2 and all(isinstance(q, SymObj) and q.attrs.get("of") is spl and q.attrs.get("__d__") == k + 1
                                                                for k, q in enumerate(d)))), func=fn)
     chk.bounded.append({"what": "_interpolate", "bound": "4-row tables, 1 and 2 components, every pattern of non-finite rows leaving >= 2 rows, two mode pairs", "held": True})
+
+
+def c_extend(chk):
+    """extendInterpolationTable on an existing 3-row table [t0<t1<t2] with values y0..y2, every combination of {lower end moved, not moved} x
+    {upper end moved, not moved} x point counts in {0, 2}: the table handed to the interpolation is
+        new lower points (the function evaluated THERE) ++ old rows with their OLD values ++ new upper points (the function evaluated THERE),
+    abscissae strictly increasing, first = newMin when extended below, last = newMax when extended above; the function is evaluated only at
+    the new points; adaptive bookkeeping is reset when adaptive interpolation is on.  (1 and 2 components.)"""
+    fn = f"{IQ}.extendInterpolationTable"
+    t = [real("t0"), real("t1"), real("t2")]
+    nmin, nmax = real("newMin"), real("newMax")
+    for K in (1, 2):
+        ys = as_array([real(f"y{i}") for i in range(3)]) if K == 1 else as_array([[real(f"y{i}{c}") for c in range(2)] for i in range(3)])
+        for below, above, pmin, pmax in itertools.product((True, False), (True, False), (0, 2), (0, 2)):
+            def mk(it, below=below, above=above, pmin=pmin, pmax=pmax, K=K, ys=ys):
+                for a, b in zip(t, t[1:]):
+                    it.assume(Lt(a, b))
+                it.assume(Lt(nmin, t[0]) if below else Ge(nmin, t[0]))
+                it.assume(Gt(nmax, t[2]) if above else Le(nmax, t[2]))
+                o = make_fn(K, "NONE", "NONE", adaptive=True)
+                o.attrs.update(_interpolationPoints=as_array(t), _interpolationValues=ys.copy(), _rangeMin=t[0], _rangeMax=t[2],
+                               _directEvaluateCount=7, _directlyEvaluatedAt=[real("old.eval")])
+                return o, [nmin, nmax, pmin, pmax], {}, {"o": o}
+            calls = []
+
+            def fimpl(it, so, a, k, K=K):
+                pts = as_array(a[0])
+                it.event(kind="f-eval", pts=pts)
+                return apply(F, pts, K) if pts.size else (np.empty((0,), dtype=object) if K == 1 else np.empty((0, K), dtype=object))
+
+            def new_table(it, so, a, k):
+                it.event(kind="new-table", x=as_array(a[0]), fx=as_array(a[1]))
+            reg = {"InterpolatableFunction._functionImplementation": fimpl, "InterpolatableFunction.newInterpolationTableFromValues": new_table,
+                   "InterpolatableFunction.hasInterpolation": lambda it, so, a, k: True}
+            tag = f"K{K}.{'below' if below else 'not-below'}.{'above' if above else 'not-above'}.n{pmin}{pmax}"
+            paths = chk.summarize(MODULE, "InterpolatableFunction.extendInterpolationTable", mk, registry=reg,
+                                  record=(K == 1 and below and above and pmin == 2 and pmax == 2))
+            rets = sel(paths)
+            if len(rets) != 1 or len(paths) != 1:
+                chk.undecided.append(f"extendInterpolationTable[{tag}]: {len(rets)} returning paths of {len(paths)}")
+                continue
+            p = rets[0]
+            nt = [e for e in p.events if e.get("kind") == "new-table"]
+            if len(nt) != 1:
+                chk.vc(f"extendInterpolationTable.{tag}.one-new-table", p.pc, sp.false, func=fn)
+                continue
+            x, fx = nt[0]["x"].reshape(-1), nt[0]["fx"]
+            nlo = pmin if (below and pmin > 0) else 0
+            nhi = pmax if (above and pmax > 0) else 0
+            ok_len = len(x) == nlo + 3 + nhi and fx.shape[0] == len(x)
+            chk.vc(f"extendInterpolationTable.{tag}.row-count", p.pc, sym.to_sym(bool(ok_len)), func=fn)
+            if not ok_len:
+                continue
+            goals = [Eq(x[nlo + i], t[i]) for i in range(3)]
+            goals += [Lt(a, b) for a, b in zip(x, x[1:])]
+            if nlo:
+                goals.append(Eq(x[0], nmin))
+            if nhi:
+                goals.append(Eq(x[-1], nmax))
+            chk.vc(f"extendInterpolationTable.{tag}.abscissae", p.pc, And(*goals), func=fn)
+            # ordinates: old rows keep their values, new rows carry the function at their own abscissa
+            vals = []
+            for r in range(len(x)):
+                row = as_array(fx[r]).reshape(-1)
+                if nlo <= r < nlo + 3:
+                    want = as_array(ys[r - nlo]).reshape(-1)
+                else:
+                    want = as_array(vec(F, x[r], K)).reshape(-1)
+                vals += [Eq(a, b) for a, b in zip(row, want)] if len(row) == len(want) else [sp.false]
+            chk.vc(f"extendInterpolationTable.{tag}.ordinates-belong-to-their-abscissae", p.pc, And(*vals), func=fn)
+            evaluated = [q for e in p.events if e.get("kind") == "f-eval" for q in e["pts"].reshape(-1)]
+            new_pts = list(x[:nlo]) + list(x[nlo + 3:])
+            chk.vc(f"extendInterpolationTable.{tag}.function-evaluated-only-at-new-points", p.pc,
+                   sym.to_sym(len(evaluated) == len(new_pts)) if len(evaluated) != len(new_pts) else And(*[Eq(a, b) for a, b in zip(evaluated, new_pts)]), func=fn)
+            o = p.state["o"]
+            chk.vc(f"extendInterpolationTable.{tag}.adaptive-bookkeeping-reset", p.pc,
+                   sym.to_sym(o.attrs["_directEvaluateCount"] == 0 and list(o.attrs["_directlyEvaluatedAt"]) == [] and o.attrs["_bUseAdaptiveInterpolation"] is True), func=fn)
+    chk.bounded.append({"what": "extendInterpolationTable", "bound": "3-row table, 0 or 2 new points per side, 1 and 2 components, all 16 combinations of moved ends and counts", "held": True})
 
 
 def c_derivative(chk):
